@@ -19,8 +19,12 @@
 (* order), unn = allow_unnamed_keys, snap = items when the views were      *)
 (* made (only read by the ViewsSnapshot variant).                          *)
 (*                                                                         *)
-(* Switches (all FALSE = the code as it should be and, except              *)
-(* PinnedCtorNone, as it is):                                              *)
+(* Switches (all FALSE = the code as it should be and, except the         *)
+(* Pinned... ones, as it is):                                              *)
+(*   PinnedPopSentinel  the pinned tree: pywbem's pop() passes its own     *)
+(*                   _OMITTED sentinel to the vendored pop(), whose        *)
+(*                   sentinel is a different object: pop(k) of a missing   *)
+(*                   key returns that object instead of raising KeyError   *)
 (*   PinnedCtorNone  the pinned tree: __init__ calls update() before       *)
 (*                   allow_unnamed_keys exists, so a None key ends in      *)
 (*                   AttributeError (or, on the mapping path, in whatever  *)
@@ -37,7 +41,7 @@
 (***************************************************************************)
 EXTENDS NocaseMap
 
-CONSTANTS PinnedCtorNone, KeepOldKey, MoveToEnd, LowerFold, CopyShares,
+CONSTANTS PinnedCtorNone, PinnedPopSentinel, KeepOldKey, MoveToEnd, LowerFold, CopyShares,
           LegacyCopy, ViewsSnapshot, SetDefaultPut, EszBase, NB
 
 IFold(k) == IF k = NoneKey THEN 0
@@ -84,7 +88,9 @@ I_pop(i, k, hasd, d) ==
   IF Check(i, k) THEN <<RErr("ValueError"), i>>
   ELSE LET p == DPos(i.data, IFold(k)) IN
        IF p # 0 THEN <<RVal(i.data[p][4]), [i EXCEPT !.data = DDel(i.data, p)]>>
-       ELSE IF hasd THEN <<RVal(d), i>> ELSE <<RErr("KeyError"), i>>
+       ELSE IF hasd THEN <<RVal(d), i>>
+       ELSE IF PinnedPopSentinel THEN <<RVal(0 - 9), i>>   \* not a value
+       ELSE <<RErr("KeyError"), i>>
 I_popitem(i) ==
   IF i.data = <<>> THEN <<RErr("KeyError"), i>>
   ELSE LET n == Len(i.data) IN
@@ -130,7 +136,8 @@ I_new(i, e) ==      \* NocaseDict(...) / NocaseDict.fromkeys(...): new object
   LET fresh == [data |-> <<>>, unn |-> FALSE, snap |-> <<>>]
       u == I_update(fresh, e, TRUE) IN
   IF IsErr(u[1]) THEN <<u[1], i>>               \* no object; old one stays
-  ELSE <<RNone, [data |-> u[2].data, unn |-> FALSE, snap |-> DItems(u[2].data)]>>
+  ELSE <<RNone, [data |-> u[2].data, unn |-> FALSE,
+                 snap |-> IF ViewsSnapshot THEN DItems(u[2].data) ELSE <<>>]>>
 
 I_copy(i, e) ==
   LET shares == CopyShares /\ e.via = "copy"
